@@ -51,9 +51,9 @@ CLAIMS = {
         note="Only one bookkeeping function is under contract (per node); resolve_nonterminals, get_nonterm_refs and the glue are bounded only; warning printing in main.rs not covered.",
         design="§7 C15", tech="Verus contract (used-marking clause) on the extracted specialize_nonterminals; bounded set comparison on the real pipeline", cat="proof"),
     "C16": dict(
-        text="Unbounded proof (Verus) that regex::make_dot_string_constant produces a DOT double-quoted ID that decodes to the input for every string; bounded replay twin.",
-        note="Only the string-constant function is under contract; the inline label formatting of to_dot is not (see DESIGN §7 C16).",
-        design="§7 C16", tech="Verus contract (decoder round trip) on the extracted function", cat="proof"),
+        text="Unbounded proof (Verus) that regex::make_dot_string_constant produces a DOT double-quoted ID that decodes to the input for every string (it now carries every label of both dumps). Labelled bounded stand-in: the text written by the real DFA::to_dot / Regex::to_dot for the corpus plus grammars with quotes, backslashes and braces in literals, descriptions and commands is parsed with a DOT parser (Graphviz scanner rules for quoted strings) and compared with the automaton: one node per state numbered with the shell's base, start and accepting shapes, one labelled edge per transition, entry/exit edges and one cluster per within-word automaton, every edge joining declared nodes; in the regex dump every expected item appears as a labelled node with exactly its text.",
+        note="The inline formatting of to_dot is not under a Verus contract; no Graphviz is installed (the DOT parser of this check is the judge).",
+        design="§7 C16", tech="Verus contract (decoder round trip) on make_dot_string_constant; bounded DOT parsing of the real dumps (stand-in)", cat="proof"),
 }
 
 NA = {
